@@ -49,12 +49,14 @@ def compute_dmdelays(
         If dm is a scalar, returns a 1D array of delays. If dm is an array,
         returns a 2D array with shape ``(len(dm), len(freqs))``.
     """
+    scalar_dm = np.ndim(dm) == 0
     freqs = np.atleast_1d(freqs).astype(np.float32)
     dm = np.atleast_1d(dm)[:, np.newaxis].astype(np.float32)
     delays = dm * DM_CONSTANT_LK * ((freqs**-2) - (ref_freq**-2))
     if in_samples:
         delays = (delays / tsamp).round().astype(np.int32)
-    return delays.squeeze()
+    # Keep the channel axis, also for a single channel
+    return delays[0] if scalar_dm else delays
 
 
 def compute_dmsmearing(
@@ -85,6 +87,7 @@ def compute_dmsmearing(
         If dm is a scalar, returns a 1D array of smearing. If dm is an array,
         returns a 2D array with shape ``(len(dm), len(freqs))``.
     """
+    scalar_dm = np.ndim(dm) == 0
     freqs = np.atleast_1d(freqs).astype(np.float32)
     dm = np.atleast_1d(dm)[:, np.newaxis].astype(np.float32)
     foff = float(np.abs(freqs[1] - freqs[0]))
